@@ -427,7 +427,13 @@ func c08Topo(c *mon.Case, sp c08Spec) {
 			}
 			nsend[o][ph] = w
 			for s := 0; s <= w; s++ {
-				fl := make([]byte, c.Rand.Intn(48))
+				// mostly short payloads; one in eight is up to ~560 bytes long, so that totals on and around
+				// the 512-byte mark (with and without STAR's 4-byte header) travel the topology too
+				fln := c.Rand.Intn(48)
+				if c.Rand.Intn(8) == 0 {
+					fln = 440 + c.Rand.Intn(120)
+				}
+				fl := make([]byte, fln)
 				c.Rand.Read(fl)
 				sent[c08Key{o, ph, s}] = c08Payload(o, ph, s, s == w, nonce, fl)
 			}
